@@ -8,7 +8,7 @@ def short(s, n):
     return s if len(s) <= n else s[:n - 1] + '…'
 hist = {'C06': 'missed', 'C18': 'missed'}   # first-round misses recorded before earlier_runs existed
 rows, missed_first, total = [], 0, 0
-for d in sorted(glob.glob(os.path.join(ROOT, 'seeded', '*'))):
+for d in sorted(glob.glob(os.path.join(ROOT, 'seeded', 'C*'))):
     m = json.load(open(os.path.join(d, 'meta.json')))
     name = os.path.basename(d)
     first = None
